@@ -1,4 +1,5 @@
 import SciVerif.Lemmas.Fmt
+import SciVerif.Lemmas.Replace
 /-!
 # C13 — a file written at an output placeholder ends up exactly at the declared path
 
@@ -105,6 +106,74 @@ example : decodeExtra "__parent__sib/x.txt".toList = "../sib/x.txt".toList ∧
 example : noOcc parentPH "sub/x_y.txt".toList ∧ noOcc (fsrootPH ++ ['/']) "sub/x_y.txt".toList := by
   simp [noOcc, parentPH, fsrootPH, stripPrefix?]
 
+/-! ### round trip: a file written at the temp image of `p` is moved to `p` -/
+
+/-- decoding undoes encoding on every path without an underscore (so in particular without a
+segment that spells a placeholder), however many `../` it has and wherever they are -/
+theorem c13_decode_encode (p : S) (h : '_' ∉ p) : decodeParent (encodeParent p) = p :=
+  decodeParent_encodeParent p h
+
+theorem encodeParent_abs (r : S) : encodeParent ('/' :: r) = '/' :: replaceAllF parentTok parentPH r.length r := by
+  simp [encodeParent, replaceAll, replaceAllF, parentTok, stripPrefix?]
+
+/-- an absolute path: the file the command writes at `<tmp>/__fsroot__/…` is moved back to `/…` -/
+theorem c13_roundtrip_absolute (r : S) (h : '_' ∉ r) : decodeExtra (tempPath ('/' :: r)) = '/' :: r := by
+  have he := encodeParent_abs r
+  have ht : tempPath ('/' :: r) = fsrootPH ++ encodeParent ('/' :: r) := by
+    simp only [tempPath, he]
+  rw [ht, he]
+  unfold decodeExtra goReplace1
+  have hne : fsrootPH ++ ['/'] ≠ [] := by simp
+  rw [if_neg hne]
+  have hform : fsrootPH ++ '/' :: replaceAllF parentTok parentPH r.length r =
+      '_' :: (['_', 'f', 's', 'r', 'o', 'o', 't', '_', '_'] ++ ['/'] ++ replaceAllF parentTok parentPH r.length r) := by
+    simp [fsrootPH]
+  have hstrip : stripPrefix? (fsrootPH ++ ['/']) (fsrootPH ++ '/' :: replaceAllF parentTok parentPH r.length r) =
+      some (replaceAllF parentTok parentPH r.length r) := by
+    have := stripPrefix?_append_self (fsrootPH ++ ['/']) (replaceAllF parentTok parentPH r.length r)
+    simpa using this
+  rw [hform]
+  simp only [replaceFirst]
+  rw [← hform, hstrip]
+  simp only
+  have : ['/'] ++ replaceAllF parentTok parentPH r.length r = encodeParent ('/' :: r) := by rw [he]; rfl
+  rw [this]
+  exact decodeParent_encodeParent ('/' :: r) (by simp; exact h)
+
+/-- a relative path whose encoded form does not spell the fs-root placeholder (decidable; it cannot when
+the path has no underscore, see the examples) -/
+theorem c13_roundtrip_relative (p : S) (h : '_' ∉ p) (hrel : ∀ r, p ≠ '/' :: r)
+    (hfs : noOcc (fsrootPH ++ ['/']) (encodeParent p)) : decodeExtra (tempPath p) = p := by
+  have hq : ∀ r, encodeParent p ≠ '/' :: r := by
+    intro r hr
+    cases p with
+    | nil => simp [encodeParent, replaceAll, replaceAllF] at hr
+    | cons c cs =>
+      have hc : c ≠ '/' := fun hc => hrel cs (by rw [hc])
+      simp only [encodeParent, replaceAll, List.length_cons, replaceAllF] at hr
+      split at hr
+      · simp [parentPH] at hr
+      · simp at hr; exact hc hr.1
+  have ht : tempPath p = encodeParent p := by
+    unfold tempPath
+    generalize encodeParent p = q at hq
+    cases q with
+    | nil => rfl
+    | cons c cs =>
+      by_cases hc : c = '/'
+      · exact absurd (by rw [hc]) (hq cs)
+      · simp only
+  rw [ht]
+  unfold decodeExtra goReplace1
+  have hne : fsrootPH ++ ['/'] ≠ [] := by simp
+  rw [if_neg hne, replaceFirst_noOcc _ _ _ hfs]
+  exact decodeParent_encodeParent p h
+
+/-- non-vacuity: typical relative outputs meet the hypotheses of `c13_roundtrip_relative` -/
+example : '_' ∉ "../../sib/new/x.txt".toList ∧ (∀ r, "../../sib/new/x.txt".toList ≠ '/' :: r) ∧
+    decodeExtra (tempPath "../../sib/new/x.txt".toList) = "../../sib/new/x.txt".toList := by
+  refine ⟨by decide, by intro r h; simp at h, by decide⟩
+
 theorem c13_decode_not_inverse :
     decodeParent (encodeParent "__parent../x".toList) = "../parent__x".toList ∧
     pathIsValid "__parent../x".toList = true := by decide
@@ -120,6 +189,10 @@ example : tempPath "sub/new/x.txt".toList = "sub/new/x.txt".toList ∧
 
 end SciVerif.Fmt
 
+#print axioms SciVerif.Fmt.c13_decode_encode
+#print axioms SciVerif.Fmt.encodeParent_abs
+#print axioms SciVerif.Fmt.c13_roundtrip_absolute
+#print axioms SciVerif.Fmt.c13_roundtrip_relative
 #print axioms SciVerif.Fmt.c13_input_resolves
 #print axioms SciVerif.Fmt.c13_prepend_shape
 #print axioms SciVerif.Fmt.c13_temp_path_relative
